@@ -17,7 +17,7 @@ RULE = ('all 1440 HH:MM (x 3 carriers), HH:MM:SS stratified (every hour x minute
         '(ISO, m/d/yyyy, Month d yyyy, tomorrow, yesterday, today) as "<date> at <time>", random references (en-us); bare 24-hour HH:MM in the 8 other cultures. non-trivial = one '
         'resolved time/datetime entity returned; distinct = distinct (query, reference date).')
 EXHAUSTIVE = False
-JOB_TIMEOUT = 1200
+JOB_TIMEOUT = 5400
 FULL_WIDTH = str.maketrans('0123456789:', '０１２３４５６７８９：')
 TIME_CARRIERS = ['at {}', '{}', 'the meeting is at {} .', '   at {}']
 
@@ -199,7 +199,7 @@ def run_composed_culture(job, ctx):
     cu = job['culture']
     m = dtlib.dt_model(cu)
     r = ctx.rng('c07:composed:' + cu)
-    refs = dtlib.refs(r, 6 if ctx.tier == 'quick' else 60)
+    refs = dtlib.refs(r, 6 if ctx.tier == 'quick' else 25)
     days, fam = CULT_COMPOSED[cu]
     for R in refs:
         for pol, tpls in fam.items():
